@@ -214,6 +214,15 @@ def cls_sb_secant_start(d):
         abs(abs(d['returned']) - abs(d['load'])) <= 2e-3 * abs(d['load'])
 
 
+def cls_sb_kp1_scalar(d):
+    """Seeger-Beste with K_p <= 1.005 on a scalar / one-element input (scipy's scalar secant, second starting point above the load): the
+    iteration occasionally leaves the neighbourhood of the load altogether and scipy still reports convergence (any value, even of the
+    wrong sign) - the scalar sibling of sb_kp_near_1_array."""
+    c = str(d.get('container', ''))
+    scalar = c in ('float', 'np.float64', 'ndarray[0d]', 'ndarray[1]', 'Series[1]', 'int', 'np.int64', 'int64 ndarray[1]')
+    return d.get('law') == 'SeegerBeste' and d['K_p'] <= 1.005 and scalar and secant_start_above_load(d['K_p'], d['load'])
+
+
 def _nan(x):
     return isinstance(x, float) and x != x
 
@@ -239,7 +248,7 @@ def cls_en_int_array(d):
         c.startswith(('int64 ndarray[', 'int64 Series[', 'list of int [')) and not c.endswith('[1]')
 
 
-CLASSES = {'sb_secant_start_above_load': cls_sb_secant_start, 'en_load_zero_in_array': cls_en_load_zero, 'sb_zero_in_array': cls_sb_zero,
+CLASSES = {'sb_secant_start_above_load': cls_sb_secant_start, 'sb_kp_near_1_scalar': cls_sb_kp1_scalar, 'en_load_zero_in_array': cls_en_load_zero, 'sb_zero_in_array': cls_sb_zero,
            'en_integer_array': cls_en_int_array, 'sb_scalar': cls_sb_scalar, 'sb_kp_near_1_array': cls_sb_kp1_array, 'en_load_unconverged_array': cls_en_load_unconverged, 'sb_near_elastic_inverse': cls_sb_near_elastic_inverse, 'one_element_series': cls_series1, 'en_dload_elastic_term': cls_en_dload,
            'sb_near_elastic': cls_sb_near_elastic, 'sb_overshoot_small': cls_sb_overshoot}
 
@@ -925,7 +934,7 @@ def replay(res, rp):
         return res.finish()
     loads = v.get('loads') or [v.get('load', 100.0)]
     div = 2.0 if v.get('branch') in ('secondary', '_secondary_branch') or 'secondary' in str(v.get('method', '')) + str(v.get('function', '')) else 1.0
-    loads = sorted({abs(float(x)) / div for x in loads if x})
+    loads = sorted({abs(float(x)) / div for x in loads if x}) or [100.0, 200.0, 359.0]       # zero-load / container violations do not depend on the ladder
     smp = dict(group='replay', Rm=0, E=v['E'], K=v['K'], n=v['n'], K_p=v['K_p'], tol=v.get('tol', 1e-4), loads=loads)
     run(res, only=[smp])
     return res.finish()
